@@ -436,56 +436,4 @@ pub mod proofs {
         kani::cover!(!r && id == 3 && on_a, "live id paired with the wrong signal");
     }
 
-    /// Symbolic history of three operations from the initial state.
-    #[kani::proof]
-    #[kani::unwind(7)]
-    pub fn c05_history3() {
-        reg::init_globals();
-        let mut m = Model { a: MEMPTY, b: MEMPTY, next_id: 1 };
-        let mut step = 0;
-        let mut first_a: u128 = 0;
-        let mut regs = 0;
-        while step < 3 {
-            let op: u8 = kani::any();
-            kani::assume(op < 5);
-            if op == 0 && m.a.n < 3 {
-                let r = ok(unsafe { register(SA, || hit(1)) });
-                assert!(r.is_some(), "C05: registering a catchable signal failed");
-                let (_, id) = reg::sigid_parts(r.unwrap());
-                assert!(id == m.next_id, "C05: the id handed out is not a fresh one (ids must never repeat)");
-                if m.a.n == 0 { first_a = id; }
-                m.a.push(id, 1);
-                m.next_id += 1;
-                regs += 1;
-            } else if op == 1 && m.b.n < 3 {
-                let r = ok(unsafe { register_sigaction(SB, |_| hit(3)) });
-                assert!(r.is_some(), "C05: registering a catchable signal failed");
-                let (_, id) = reg::sigid_parts(r.unwrap());
-                assert!(id == m.next_id, "C05: the id handed out is not a fresh one (ids must never repeat)");
-                m.b.push(id, 3);
-                m.next_id += 1;
-                regs += 1;
-            } else if op == 2 {
-                // the first id ever issued for SA: live or stale by now
-                let id = if first_a != 0 { first_a } else { 7 };
-                let r = unregister(reg::make_sigid(SA, id));
-                let e = m.a.remove(id);
-                assert!(r == e, "C05: unregister returned true for an id that is not registered (or false for a live one)");
-            } else if op == 3 {
-                #[allow(deprecated)]
-                let r = unregister_signal(SA);
-                assert!(r == (m.a.present && m.a.n > 0), "C05: unregister_signal's result does not say whether it removed anything");
-                m.a.n = 0;
-            } else if op == 4 && m.a.present {
-                clear_log();
-                deliver(SA);
-                assert!(log_is(&m.a), "C02: a delivery did not run exactly its signal's actions once each in registration order");
-            }
-            assert!(agrees(SA, &m.a) && agrees(SB, &m.b), "C05: the registry diverged from the per-signal list model");
-            assert!((!m.a.present || installed(SA)) && (!m.b.present || installed(SB)), "C05: a taken-over signal lost the library's handler");
-            step += 1;
-        }
-        kani::cover!(regs == 3, "three registrations");
-        kani::cover!(regs == 1 && m.a.present && m.a.n == 0, "registered then removed");
-    }
 }
